@@ -31,7 +31,9 @@ class OriginalLocation:
         if path_maker_type == PathMakerType.AbsolutePaths:
             return parent
         if path_maker_type == PathMakerType.RelativePaths:
-            if (parent == volume_top_dir) or parent.startswith(
-                    volume_top_dir + os.path.sep):
-                parent = parent[len(volume_top_dir + os.path.sep):]
+            prefix = volume_top_dir
+            if not prefix.endswith(os.path.sep):
+                prefix = prefix + os.path.sep
+            if (parent == volume_top_dir) or parent.startswith(prefix):
+                parent = parent[len(prefix):]
             return parent
